@@ -454,10 +454,9 @@ func (k Keeper) LiquidateForSurplusAndDebt(ctx sdk.Context) error {
 	for _, data := range auctionMapData {
 		killSwitchParams, _ := k.esm.GetKillSwitchData(ctx, data.AppId)
 		if !data.IsAuctionActive && !killSwitchParams.BreakerEnable {
-			err := k.CheckStatsForSurplusAndDebt(ctx, data.AppId, data.AssetId)
-			if err != nil {
-				return err
-			}
+			_ = utils.ApplyFuncIfNoError(ctx, func(ctx sdk.Context) error {
+				return k.CheckStatsForSurplusAndDebt(ctx, data.AppId, data.AssetId)
+			})
 		}
 
 	}
